@@ -9,64 +9,10 @@
 import PiqpModel.KKT
 import PiqpModel.Precond
 import PiqpModel.Pack
+import PiqpModel.Control
 
 namespace Piqp
 variable {K : Type}
-
-inductive Status where
-  | solved | maxIterReached | primalInfeasible | dualInfeasible | numerics | unsolved | invalidSettings
-  deriving DecidableEq, Repr, Inhabited
-
-def Status.code : Status → Int
-  | .solved => 1 | .maxIterReached => -1 | .primalInfeasible => -2 | .dualInfeasible => -3
-  | .numerics => -8 | .unsolved => -9 | .invalidSettings => -10
-
-structure Settings (K : Type) where
-  rhoInit : K
-  deltaInit : K
-  epsAbs : K
-  epsRel : K
-  checkDualityGap : Bool
-  epsGapAbs : K
-  epsGapRel : K
-  regLowerLimit : K
-  regFinetuneLowerLimit : K
-  regFinetunePrimalThr : Int
-  regFinetuneDualThr : Int
-  maxIter : Int
-  maxFactorRetires : Int
-  precScaleCost : Bool
-  precIter : Int
-  tau : K
-  refAlways : Bool
-  refEpsAbs : K
-  refEpsRel : K
-  refMaxIter : Int
-  refMinRate : K
-  regEps : K
-  regRel : K
-
-structure Info (K : Type) where
-  status : Status
-  iter : Nat
-  rho : K
-  delta : K
-  mu : K
-  sigma : K
-  primalStep : K
-  dualStep : K
-  primalInf : K
-  primalRelInf : K
-  dualInf : K
-  dualRelInf : K
-  primalObj : K
-  dualObj : K
-  dualityGap : K
-  dualityGapRel : K
-  factorRetires : Nat
-  regLimit : K
-  noPrimalUpdate : Nat
-  noDualUpdate : Nat
 
 /-- result vectors + residual/step workspace -/
 structure Work (K : Type) (n p m : Nat) where
@@ -108,20 +54,6 @@ section
 variable [Add K] [Sub K] [Mul K] [Div K] [Neg K] [Zero K] [One K] [LT K] [DecidableLT K] [LE K] [DecidableLE K]
 variable [NatCast K] [BEq K]
 variable {n p m : Nat}
-
-/-- `Settings::verify_settings` -/
-def Settings.verify (s : Settings K) : Bool :=
-  decide (0 < s.rhoInit) && decide (0 < s.deltaInit) && decide (0 < s.epsAbs) && decide (0 ≤ s.epsRel) &&
-  decide (0 < s.epsGapAbs) && decide (0 ≤ s.epsGapRel) && decide (0 < s.regLowerLimit) &&
-  decide (0 ≤ s.regFinetunePrimalThr) && decide (0 ≤ s.regFinetuneDualThr) &&
-  decide (0 < s.maxIter) && decide (0 < s.maxFactorRetires) && decide (0 ≤ s.precIter) &&
-  decide (0 < s.tau) && decide (s.tau ≤ 1) &&
-  decide (0 < s.refEpsAbs) && decide (0 ≤ s.refEpsRel) && decide (0 ≤ s.refMaxIter) &&
-  decide (1 ≤ s.refMinRate) && decide (0 < s.regEps) && decide (0 ≤ s.regRel)
-
-def Settings.kkt (s : Settings K) : KKTSettings K :=
-  { regEps := s.regEps, regRel := s.regRel, refMaxIter := s.refMaxIter.toNat,
-    refEpsAbs := s.refEpsAbs, refEpsRel := s.refEpsRel, refMinRate := s.refMinRate }
 
 /-- dot product over the first `cnt` entries -/
 def dotHead (cnt : Nat) (a b : Vec K n) : K := sumFin n (fun i => if i.val < cnt then a[i] * b[i] else 0)
@@ -245,23 +177,11 @@ def stepToBoundary (d : Data K n p m) (w : Work K n p m) (dir : Step K n p m) : 
 def kktScal (e : Env K n p m) (k : KKT K n p m) (w : Work K n p m) (rho delta : K) : KKT K n p m :=
   KKT.updateScalings e.be e.data k rho delta w.s w.s_lb w.s_ub w.z w.z_lb w.z_ub
 
-/-- control fields the termination measure depends on -/
-structure Ctrl where
-  iter : Nat
-  factorRetires : Nat
-  refineOn : Bool
-
 structure LoopState (K : Type) (n p m : Nat) where
   c : Ctrl
   w : Work K n p m
   info : Info K
   kkt : KKT K n p m
-
-/-- the termination test of the loop head on the diagnostics in `info` -/
-def termTest (st : Settings K) (info : Info K) : Bool :=
-  decide (info.primalInf < st.epsAbs + st.epsRel * info.primalRelInf) &&
-  decide (info.dualInf < st.epsAbs + st.epsRel * info.dualRelInf) &&
-  (!st.checkDualityGap || decide (info.dualityGap < st.epsGapAbs + st.epsGapRel * info.dualityGapRel))
 
 /-- loop head, first part: (re)compute residuals at iteration 0 and the infeasibility norms -/
 def headInfo (e : Env K n p m) (iter0 : Bool) (w : Work K n p m) (info : Info K) : Work K n p m × Info K :=
@@ -280,85 +200,16 @@ def regResiduals (e : Env K n p m) (w0 : Work K n p m) (info1 : Info K) : Work K
   let rzu := d.ub.headUpd w0.r.z_ub fun i => w0.rz_ub_nr[i] - delta * (w0.nu_ub[i] - w0.z_ub[i])
   { w0 with r := { w0.r with x := rx, y := ry, z := rz, z_lb := rzl, z_ub := rzu } }
 
-/-- the two infeasibility rules, as functions of the scalars they depend on -/
-def primalInfeasRuleS (st : Settings K) (cs : Consts K) (info : Info K) (pprox pinfR : K) : Bool :=
-  decide ((min (5 : Int) st.regFinetuneDualThr) < (info.noDualUpdate : Int)) &&
-  decide (cs.c1e12 < pprox) &&
-  decide (pinfR < st.epsAbs + st.epsRel * info.primalRelInf)
-
-def dualInfeasRuleS (st : Settings K) (cs : Consts K) (info : Info K) (dprox dinfR : K) : Bool :=
-  decide ((min (5 : Int) st.regFinetunePrimalThr) < (info.noPrimalUpdate : Int)) &&
-  decide (cs.c1e12 < dprox) &&
-  decide (dinfR < st.epsAbs + st.epsRel * info.dualRelInf)
-
 def primalInfeasRule (e : Env K n p m) (w1 : Work K n p m) (info1 : Info K) : Bool :=
   primalInfeasRuleS e.st e.cs info1 (primalProxInf e w1) (primalInfR e w1)
 
 def dualInfeasRule (e : Env K n p m) (w1 : Work K n p m) (info1 : Info K) : Bool :=
   dualInfeasRuleS e.st e.cs info1 (dualProxInf e w1) (dualInfR e w1)
 
-/-- the switch to the fine-tuning regularisation limit -/
-def finetuneSwitch (st : Settings K) (info1 : Info K) : Info K :=
-  let ft : Bool :=
-    (decide (st.regFinetunePrimalThr < (info1.noPrimalUpdate : Int)) && (info1.rho == info1.regLimit) &&
-       !(info1.regLimit == st.regFinetuneLowerLimit)) ||
-    (decide (st.regFinetuneDualThr < (info1.noDualUpdate : Int)) && (info1.delta == info1.regLimit) &&
-       !(info1.regLimit == st.regFinetuneLowerLimit))
-  if ft then { info1 with regLimit := st.regFinetuneLowerLimit, noPrimalUpdate := 0, noDualUpdate := 0 } else info1
+abbrev NumState (K : Type) (n p m : Nat) := Work K n p m × KKT K n p m
 
-/-- `σ = clamp(sg / (μ·cnt), 0, 1)³` -/
-def sigmaOf (sg mu cnt : K) : K :=
-  let sg3 := sg / (mu * cnt)
-  let sg4 := vmax 0 (vmin 1 sg3)
-  sg4 * sg4 * sg4
-
-/-- regularisation update of the inequality branch as a function of the observed scalars.
-    Returns the new info and the two flags (`ζ ← x`, `(λ, ν) ← (y, z)`). -/
-def regUpdateIneq (st : Settings K) (cs : Consts K) (info2 : Info K) (muPrev mu dinfNr dprox pinfNr pprox : K) :
-    Info K × Bool × Bool :=
-  let muRate := vmax 0 ((muPrev - mu) / muPrev)
-  let condP := decide (dinfNr < cs.c0_95 * info2.dualInf) ||
-               ((info2.rho == st.regFinetuneLowerLimit) && decide (dprox < cs.c1e2))
-  let info3 : Info K :=
-    if condP then { info2 with rho := vmax info2.regLimit ((1 - muRate) * info2.rho) }
-    else { info2 with noPrimalUpdate := info2.noPrimalUpdate + 1,
-                      rho := vmax info2.regLimit ((1 - cs.c0_666 * muRate) * info2.rho) }
-  let condD := decide (pinfNr < cs.c0_95 * info3.primalInf) ||
-               ((info3.delta == st.regFinetuneLowerLimit) && decide (pprox < cs.c1e2))
-  let info4 : Info K :=
-    if condD then { info3 with delta := vmax info3.regLimit ((1 - muRate) * info3.delta) }
-    else { info3 with noDualUpdate := info3.noDualUpdate + 1,
-                      delta := vmax info3.regLimit ((1 - cs.c0_666 * muRate) * info3.delta) }
-  (info4, condP, condD)
-
-/-- regularisation update when there are no inequality constraints -/
-def regUpdateEq (cs : Consts K) (info2 : Info K) (dinfNr pinfNr : K) : Info K × Bool × Bool :=
-  let condP := decide (dinfNr < cs.c0_95 * info2.dualInf)
-  let info3 : Info K :=
-    if condP then { info2 with rho := vmax info2.regLimit (cs.c0_1 * info2.rho) }
-    else { info2 with noPrimalUpdate := info2.noPrimalUpdate + 1, rho := vmax info2.regLimit (cs.c0_5 * info2.rho) }
-  let condD := decide (pinfNr < cs.c0_95 * info3.primalInf)
-  let info4 : Info K :=
-    if condD then { info3 with delta := vmax info3.regLimit (cs.c0_1 * info3.delta) }
-    else { info3 with noDualUpdate := info3.noDualUpdate + 1, delta := vmax info3.regLimit (cs.c0_5 * info3.delta) }
-  (info4, condP, condD)
-
-/-- phase A: loop head up to the infeasibility tests.  `none` = continue with the body.
-    (`iter0` : the residuals are recomputed when `iter = 0`.) -/
-def phaseA (e : Env K n p m) (iter0 : Bool) (w : Work K n p m) (info : Info K) :
-    Work K n p m × Info K × Option Status :=
-  let hi := headInfo e iter0 w info
-  if termTest e.st hi.2 then
-    (hi.1, { hi.2 with status := .solved }, some .solved)
-  else
-    let w1 := regResiduals e hi.1 hi.2
-    if primalInfeasRule e w1 hi.2 then (w1, { hi.2 with status := .primalInfeasible }, some .primalInfeasible)
-    else if dualInfeasRule e w1 hi.2 then (w1, { hi.2 with status := .dualInfeasible }, some .dualInfeasible)
-    else (w1, hi.2, none)
-
-/-- phase B (numeric part): boundary shift, finetune switch, `update_scalings`, `regularize_and_factorize` -/
-def phaseB (e : Env K n p m) (refineOn : Bool) (w : Work K n p m) (info0 : Info K) (kkt : KKT K n p m) :
-    Work K n p m × Info K × KKT K n p m :=
+/-- boundary shift of `z`, `z_lb`, `z_ub` by machine epsilon, and `mu` if something was shifted -/
+def shiftOp (e : Env K n p m) (w : Work K n p m) (info0 : Info K) : Work K n p m × Info K :=
   let st := e.st
   let d := e.data
   let eps := e.cs.machEps
@@ -370,22 +221,14 @@ def phaseB (e : Env K n p m) (refineOn : Bool) (w : Work K n p m) (info0 : Info 
   let zu1 := if shiftU then d.ub.headUpd w.z_ub fun i => w.z_ub[i] + eps else w.z_ub
   let w1 : Work K n p m := { w with z := z1, z_lb := zl1, z_ub := zu1 }
   let info1 := if shiftZ || shiftL || shiftU then { info0 with mu := muOf d w1 } else info0
-  let info2 := finetuneSwitch st info1
-  let k1 := kktScal e kkt w1 info2.rho info2.delta
-  let k2 := KKT.regFactor e.be st.kkt d k1 refineOn e.inner
-  (w1, info2, k2)
-
-/-- what a failed factorisation does to ρ, δ and the regularisation limit -/
-def bumpRegS (st : Settings K) (cs : Consts K) (info : Info K) : Info K :=
-  { info with delta := info.delta * cs.c100, rho := info.rho * cs.c100,
-              regLimit := vmin (cs.c10 * info.regLimit) st.epsAbs }
+  (w1, info1)
 
 def bumpReg (e : Env K n p m) (info : Info K) : Info K := bumpRegS e.st e.cs info
 
-/-- phase C: predictor/corrector (or the full step when there are no inequalities), iterate update and
-    regularisation update. -/
-def phaseC (e : Env K n p m) (refineOn : Bool) (kkt : KKT K n p m) (w : Work K n p m) (info : Info K) :
-    Work K n p m × Info K :=
+/-- numeric part of the loop body: predictor/corrector (or the full step when there are no inequalities),
+    iterate update and `update_nr_residuals`; returns the scalars the regularisation update reads -/
+def stepNumOp (e : Env K n p m) (refineOn : Bool) (kkt : KKT K n p m) (w : Work K n p m) (info : Info K) :
+    Work K n p m × Info K × K × K × K × K × K :=
   let st := e.st
   let d := e.data
   let cs := e.cs
@@ -432,16 +275,7 @@ def phaseC (e : Env K n p m) (refineOn : Bool) (kkt : KKT K n p m) (w : Work K n
     let mu := muOf d w1
     let info1 := { info with sigma := sigma, primalStep := pstep, dualStep := dstep, mu := mu }
     let (w2, info2) := updateNrResiduals e w1 info1
-    -- update regularisation
-    let ru := regUpdateIneq st cs info2 muPrev mu (dualInfNr e w2) (dualProxInf e w2) (primalInfNr e w2) (primalProxInf e w2)
-    let w3 : Work K n p m := if ru.2.1 then { w2 with zeta := w2.x } else w2
-    let w4 : Work K n p m :=
-      if ru.2.2 then
-        { w3 with lambda := w3.y, nu := w3.z,
-                  nu_lb := d.lb.headUpd w3.nu_lb fun i => w3.z_lb[i],
-                  nu_ub := d.ub.headUpd w3.nu_ub fun i => w3.z_ub[i] }
-      else w3
-    (w4, ru.1)
+    (w2, info2, muPrev, dualInfNr e w2, dualProxInf e w2, primalInfNr e w2, primalProxInf e w2)
   else
     let d1 := solve w.r w.d
     let w1 : Work K n p m :=
@@ -450,52 +284,41 @@ def phaseC (e : Env K n p m) (refineOn : Bool) (kkt : KKT K n p m) (w : Work K n
                y := Vector.ofFn fun i => w.y[i] + 1 * d1.y[i] }
     let info1 := { info with primalStep := 1, dualStep := 1 }
     let (w2, info2) := updateNrResiduals e w1 info1
-    let ru := regUpdateEq cs info2 (dualInfNr e w2) (primalInfNr e w2)
-    let w3 : Work K n p m := if ru.2.1 then { w2 with zeta := w2.x } else w2
-    let w4 : Work K n p m := if ru.2.2 then { w3 with lambda := w3.y } else w3
-    (w4, ru.1)
+    (w2, info2, info.mu, dualInfNr e w2, dualProxInf e w2, primalInfNr e w2, primalProxInf e w2)
 
-/-- termination measure of the main loop -/
-def loopMeasure (maxIter maxRetries : Nat) (c : Ctrl) : Nat × Nat × Nat :=
-  (maxIter - c.iter, if c.refineOn then 0 else 1, maxRetries - c.factorRetires)
+/-- `ζ ← x` when the primal regularisation centre moves, `(λ, ν, ν_lb, ν_ub) ← (y, z, z_lb, z_ub)` for the dual one -/
+def applyFlagsOp (e : Env K n p m) (w2 : Work K n p m) (condP condD : Bool) : Work K n p m :=
+  let d := e.data
+  let w3 : Work K n p m := if condP then { w2 with zeta := w2.x } else w2
+  if condD then
+    if m + d.lb.cnt + d.ub.cnt ≠ 0 then
+      { w3 with lambda := w3.y, nu := w3.z,
+                nu_lb := d.lb.headUpd w3.nu_lb fun i => w3.z_lb[i],
+                nu_ub := d.ub.headUpd w3.nu_ub fun i => w3.z_ub[i] }
+    else { w3 with lambda := w3.y }
+  else w3
 
-/-- the `while (iter < max_iter)` loop of `solve_impl`.  All control decisions are taken here; the phases
-    only compute numbers. -/
+/-- the numeric operations of the real solver -/
+def realOps (e : Env K n p m) : LoopOps K (NumState K n p m) :=
+  { hasIneq := decide (m + e.data.lb.cnt + e.data.ub.cnt ≠ 0),
+    head := fun iter0 s info => let r := headInfo e iter0 s.1 info; ((r.1, s.2), r.2),
+    reg := fun s info => (regResiduals e s.1 info, s.2),
+    pprox := fun s => primalProxInf e s.1,
+    pinfR := fun s => primalInfR e s.1,
+    dprox := fun s => dualProxInf e s.1,
+    dinfR := fun s => dualInfR e s.1,
+    shift := fun s info => let r := shiftOp e s.1 info; ((r.1, s.2), r.2),
+    rescale := fun s info => (s.1, kktScal e s.2 s.1 info.rho info.delta),
+    factor := fun refineOn s => let k := KKT.regFactor e.be e.st.kkt e.data s.2 refineOn e.inner; ((s.1, k), k.factOk),
+    stepNum := fun refineOn s info =>
+      let r := stepNumOp e refineOn s.2 s.1 info
+      ((r.1, s.2), r.2),
+    applyFlags := fun s cP cD => (applyFlagsOp e s.1 cP cD, s.2) }
+
+/-- the main loop of the real solver = the generic loop on workspace × KKT state -/
 def mainLoop (e : Env K n p m) (ls : LoopState K n p m) : LoopState K n p m × Status :=
-  if h : (ls.c.iter : Int) < e.st.maxIter then
-    match phaseA e (ls.c.iter == 0) ls.w ls.info with
-    | (wA, infoA, some status) => ({ ls with w := wA, info := infoA }, status)
-    | (wA, infoA, none) =>
-      match phaseB e ls.c.refineOn wA infoA ls.kkt with
-      | (wB, infoB, kB) =>
-        let iter1 := ls.c.iter + 1
-        if kB.factOk then
-          let c1 : Ctrl := { ls.c with iter := iter1, factorRetires := 0 }
-          let (wC, infoC) := phaseC e ls.c.refineOn kB wB { infoB with iter := iter1, factorRetires := 0 }
-          mainLoop e { c := c1, w := wC, info := infoC, kkt := kB }
-        else if hr : ls.c.refineOn = false then
-          mainLoop e { c := { ls.c with iter := iter1, refineOn := true }, w := wB, info := { infoB with iter := iter1 }, kkt := kB }
-        else if hf : (ls.c.factorRetires : Int) < e.st.maxFactorRetires then
-          mainLoop e { c := { ls.c with factorRetires := ls.c.factorRetires + 1 }, w := wB,
-                       info := bumpReg e { infoB with iter := ls.c.iter, factorRetires := ls.c.factorRetires + 1 }, kkt := kB }
-        else
-          ({ c := { ls.c with iter := iter1 }, w := wB, info := { infoB with iter := iter1, status := .numerics }, kkt := kB }, .numerics)
-  else
-    ({ ls with info := { ls.info with status := .maxIterReached } }, .maxIterReached)
-termination_by loopMeasure e.st.maxIter.toNat e.st.maxFactorRetires.toNat ls.c
-decreasing_by
-  · simp only [loopMeasure]
-    apply Prod.Lex.left
-    omega
-  · simp only [loopMeasure, hr]
-    apply Prod.Lex.left
-    omega
-  · simp only [loopMeasure]
-    have hr' : ls.c.refineOn = true := by simpa using hr
-    simp only [hr']
-    apply Prod.Lex.right
-    apply Prod.Lex.right
-    omega
+  let r := loopG e.st e.cs (realOps e) ls.c (ls.w, ls.kkt) ls.info
+  ({ c := r.1.1, w := r.1.2.1.1, kkt := r.1.2.1.2, info := r.1.2.2 }, r.2)
 
 end
 end Piqp
